@@ -480,6 +480,13 @@ def _evaluate_direct(case):
         except RepoRaised as ex:
             if tc.known_exception_class(v, ms, ex.exc) is not None:
                 return discard('excluded_known_finding', lab)       # KF-C10-newton-zero-frequency, reported by kind 'single'
+            # same finding on this route when the spin EQUALS the mean motion as a number without being the same object: the
+            # harness enumeration then treats the body as synchronous (no zero-frequency mode listed, has_zero_freq False) while
+            # calculate_terms, which recognises synchronism by identity, keeps the 2o-2n = 0 mode and the Newton compliance
+            # divides by zero (thorough tier: 13 of 104 017 cases)
+            if (v.rheology == 'newton' and explicit_sync and isinstance(ex.exc, ZeroDivisionError)
+                    and 'complex division' in str(ex.exc)):
+                return discard('excluded_known_finding', lab)
             raise
         names = ('gravity', 'radius', 'density', 'shear_modulus', 'tidal_scale', 'tidal_host_mass', 'tidal_susceptibility',
                  'complex_compliance_by_frequency', 'tidal_terms_by_frequency')
